@@ -5,6 +5,7 @@ import (
 	"bufio"
 	"encoding/hex"
 	"encoding/json"
+	"flag"
 	"fmt"
 	"math/rand"
 	"os"
@@ -168,3 +169,47 @@ type Channel func(c *Ctx) error
 var Channels = map[string]Channel{}
 
 func Register(id string, ch Channel) { Channels[id] = ch }
+
+// Main is the entry point of every per-property harness binary:
+//
+//	<bin> <channel> -tier quick|search|thorough -seed N -out DIR [-replay FILE]
+//
+// It runs the real idena-go code (built from /repo's working tree through the overlay) on generated inputs,
+// writes DIR/ops.txt (operation lines for the Lean model), DIR/impl.txt (the implementation's canonical
+// answers, line by line) and DIR/report.json (coverage + failures of the independent Go property oracle).
+func Main() {
+	if len(os.Args) < 2 {
+		fmt.Fprintln(os.Stderr, "usage: <bin> <channel> [flags]")
+		os.Exit(2)
+	}
+	id := os.Args[1]
+	fs := flag.NewFlagSet("corr", flag.ExitOnError)
+	tier := fs.String("tier", "quick", "quick|search|thorough")
+	seed := fs.Int64("seed", 1, "PRNG seed")
+	out := fs.String("out", "", "output directory")
+	replay := fs.String("replay", "", "replay file")
+	fs.Parse(os.Args[2:])
+	ch, ok := Channels[id]
+	if !ok {
+		fmt.Fprintln(os.Stderr, "unknown channel", id)
+		os.Exit(2)
+	}
+	if *out == "" {
+		fmt.Fprintln(os.Stderr, "-out required")
+		os.Exit(2)
+	}
+	c, err := NewCtx(id, *tier, *seed, *out, *replay)
+	if err != nil {
+		fmt.Fprintln(os.Stderr, err)
+		os.Exit(2)
+	}
+	runErr := ch(c)
+	if err := c.Close(); err != nil {
+		fmt.Fprintln(os.Stderr, err)
+		os.Exit(2)
+	}
+	if runErr != nil {
+		fmt.Fprintln(os.Stderr, "channel error:", runErr)
+		os.Exit(3)
+	}
+}
